@@ -62,6 +62,8 @@ class GenericListTransformer(Generic[T]):
         self._feature_dims = feature_dims
         self._iter_kwargs = iter_kwargs
 
+        # Fitting replaces the transformers of any earlier fit
+        self.transformers = []
         for i, x in enumerate(X):
             # Add transformer specific keyword arguments
             # For iterable kwargs, use the i-th element of the iterable
